@@ -285,7 +285,7 @@ static void run_line(char *line) {
     } else if (!strcmp(op, "MARK")) {
         vp_logf("K %s\n", nt > 1 ? tok[1] : "");
     } else if (!strcmp(op, "LEDGER")) {
-        vp_logf("L %llu %llu %llu %llu\n",
+        vp_logf("G %llu %llu %llu %llu\n",
                 (unsigned long long)vp_led.live_cnt, (unsigned long long)vp_led.live_bytes,
                 (unsigned long long)vp_led.allocs_total, (unsigned long long)vp_led.hiwater_bytes);
     } else if (!strcmp(op, "FAULT")) {
